@@ -73,7 +73,7 @@ def apply(op, args, p, np=numpy):
     if op == 'searchsorted': return numpy.searchsorted(numpy.array(p['table'], dtype=int), a)
     if op == 'minimum_c': return numpy.minimum(a, p['c'])
     if op == 'mod_c': return numpy.mod(a, p['c'] + 1)
-    if op == 'interp': return numpy.interp(a, numpy.array(p['xp']), numpy.array(p['fp']))
+    if op == 'interp': return numpy.interp(a, numpy.array(p['xp']), numpy.array(p['fp']), left=p.get('left'), right=p.get('right'))
     if op == 'astype_f': return a * 1.0
     if op == 'compress': return numpy.compress(numpy.array(p['mask']), a, axis=p['axis'])
     raise NotImplementedError(op)
@@ -175,6 +175,8 @@ class Gen:
             op = self.choice(['transpose', 'T', 'swapaxes', 'reshape', 'ravel', 'repeat', 'broadcast_to', 'diagonal', 'trace'])
             if op == 'transpose':
                 p = dict(axes=list(self.draw(st.permutations(list(range(v.ndim))))))
+                if self.integer(0, 1):      # NumPy counts negative axes from the end
+                    p['axes'] = [ax - v.ndim if self.integer(0, 1) else ax for ax in p['axes']]
             elif op == 'swapaxes':
                 p = dict(a1=self.integer(-v.ndim, v.ndim - 1), a2=self.integer(-v.ndim, v.ndim - 1))
             elif op == 'reshape':
@@ -188,6 +190,8 @@ class Gen:
             elif op in ('diagonal', 'trace'):
                 if v.ndim < 2: return
                 a1, a2 = self.draw(st.permutations(list(range(v.ndim))))[:2]
+                if self.integer(0, 2) == 0: a1 -= v.ndim
+                if self.integer(0, 2) == 0: a2 -= v.ndim
                 p = dict(offset=self.choice([0, 0, 1, -1]), a1=a1, a2=a2)
             else:
                 p = {}
@@ -299,9 +303,21 @@ class Gen:
         else:
             a = self.pick(isf)
             if a is None: return
-            op = self.choice(['interp', 'op_rsub', 'power_i', 'compress'])
+            op = self.choice(['interp', 'interp', 'op_rsub', 'power_i', 'compress'])
             if op == 'interp':
-                self.try_add('interp', [a], dict(xp=[-2., -1., 0., .5, 2.], fp=[1., -1., 0., 2., .5]))
+                if self.integer(0, 1):
+                    a = self.pick(lambda v, e: v.dtype.kind == 'f' and e and v.size) or a     # exactly representable values: see below
+                p = dict(xp=[-2., -1., 0., .5, 2.], fp=[1., -1., 0., 2., .5])
+                v, exact, varying = self.pool[a]
+                if exact and v.size and self.integer(0, 3):
+                    # exactly representable operand values: knots on the values themselves, and (discontinuous) end values; the ends of the
+                    # table belong to the table (NumPy: left for x < xp[0], right for x > xp[-1])
+                    x0 = float(v.flat[self.integer(0, v.size - 1)])
+                    k = self.choice([0, 0, 1, 2, 2])
+                    p = dict(xp=[x0 + d for d in ([0., 1., 2.5], [-1.5, 0., 2.], [-3., -1., 0.])[k]], fp=[1., -1., 2.])
+                    if self.integer(0, 2): p['left'] = self.choice([-7., 0., 3.5])
+                    if self.integer(0, 2): p['right'] = self.choice([9., 0., -2.5])
+                if self.try_add('interp', [a], p) and ('left' in p or 'right' in p): self.features.add('interp-ends')
             elif op == 'op_rsub':
                 self.try_add('op_rsub', [a], dict(s=self.choice([1., 2, -.5])))
             elif op == 'compress':
